@@ -13,8 +13,9 @@ TRACE = "TraceNamespaces"
 
 NSS = [["a", "/"], ["a", "/", "x", "/"], ["b", "#"]]
 IRIS = [["a", "/", "f"], ["a", "/", "x", "/", "g"], ["a", "/", "x"], ["b", "#", "q"]]
-NSS_R = ["urn:a/", "urn:a/x/", "urn:a/x#", "urn:b#", "urn:a/x/b", "http://c.example/v"]
-IRIS_R = ["urn:a/foo", "urn:a/x/bar", "urn:a/x#baz", "urn:a/x", "urn:b#q", "urn:a/x/bq", "http://c.example/vocab", "urn:a/x/", "urn:a/x/b1x", "http://c.example/v2"]
+# (the last two are namespaces rdflib itself binds by default in some configurations: the user may have given them a prefix of their own)
+NSS_R = ["urn:a/", "urn:a/x/", "urn:a/x#", "urn:b#", "urn:a/x/b", "http://c.example/v", "http://www.w3.org/1999/02/22-rdf-syntax-ns#", "http://xmlns.com/foaf/0.1/"]
+IRIS_R = ["http://www.w3.org/1999/02/22-rdf-syntax-ns#type", "http://xmlns.com/foaf/0.1/name", "urn:a/foo", "urn:a/x/bar", "urn:a/x#baz", "urn:a/x", "urn:b#q", "urn:a/x/bq", "http://c.example/vocab", "urn:a/x/", "urn:a/x/b1x", "http://c.example/v2"]
 
 
 def execute(job):
@@ -44,8 +45,9 @@ def random_history(rng, n):
     for _ in range(n):
         r = rng.random()
         if r < 0.45:
-            evs.append({"op": "bind", "p": rng.choice(["", "a", "b", "a", "c"]), "n": rng.choice(NSS_R),
-                        "override": rng.random() < 0.6, "replace": rng.random() < 0.35})
+            # ("ns", "ns1", "default1": names that rdflib's own numbering of colliding and generated prefixes produces)
+            evs.append({"op": "bind", "p": rng.choice(["", "a", "b", "a", "c", "ns", "ns", "ns1", "default1"]), "n": rng.choice(NSS_R),
+                        "override": rng.random() < 0.6, "replace": rng.random() < 0.35, "via": "self" if rng.random() < 0.7 else "second"})
         elif r < 0.6:
             evs.append({"op": "cq", "iri": rng.choice(IRIS_R), "generate": rng.random() < 0.5})
         elif r < 0.7:
@@ -60,8 +62,11 @@ def random_history(rng, n):
             evs.append({"op": "expand", "p": rng.choice(["", "a", "b", "ns1", "a1", "default1"]), "l": "zz"})
         elif r < 0.97:
             evs.append({"op": "serialize", "fmt": rng.choice(["turtle", "xml", "n3", "longturtle"])})
+        elif r < 0.985:
+            evs.append({"op": "reset"})
         else:
-            evs.append({"op": "parse", "prefixes": [[rng.choice(["a", "b", "d"]), rng.choice(NSS_R)] for _ in range(rng.randint(1, 2))]})
+            evs.append({"op": "parse", "prefixes": [[rng.choice(["a", "b", "d", "ns", "ns"]), rng.choice(NSS_R)] for _ in range(rng.randint(1, 2))],
+                        "via": rng.choice(["self", "second"]), "fmt": rng.choice(["turtle", "trig", "n3"])})
     return evs
 
 
